@@ -49,6 +49,35 @@ def to_lean_bool(v):
 ATTR = {'signed': ('B', 's'), 'n_word': ('I', 'w'), 'n_int': ('I', 'i'), 'n_frac': ('I', 'f')}
 
 
+def _elementwise_int_identity(e):
+    """the name X when `e` is `np.array([int(v) [if <test> else v] for v in X.flatten()], dtype=object).reshape(X.shape)`, else None."""
+    try:
+        if not (isinstance(e, ast.Call) and isinstance(e.func, ast.Attribute) and e.func.attr == 'reshape' and len(e.args) == 1 and not e.keywords):
+            return None
+        shp = e.args[0]
+        inner = e.func.value
+        if not (isinstance(shp, ast.Attribute) and shp.attr == 'shape' and isinstance(shp.value, ast.Name)):
+            return None
+        x = shp.value.id
+        if not (isinstance(inner, ast.Call) and ast.unparse(inner.func) == 'np.array' and len(inner.args) == 1
+                and all(k.arg == 'dtype' and ast.unparse(k.value) == 'object' for k in inner.keywords)):
+            return None
+        lc = inner.args[0]
+        if not (isinstance(lc, ast.ListComp) and len(lc.generators) == 1 and not lc.generators[0].ifs and isinstance(lc.generators[0].target, ast.Name)):
+            return None
+        v = lc.generators[0].target.id
+        if ast.unparse(lc.generators[0].iter) != '%s.flatten()' % x:
+            return None
+        elt = lc.elt
+        if ast.unparse(elt) == 'int(%s)' % v:
+            return x
+        if isinstance(elt, ast.IfExp) and ast.unparse(elt.body) == 'int(%s)' % v and ast.unparse(elt.orelse) == v:
+            return x
+    except Exception:
+        return None
+    return None
+
+
 class PE:
     """partial evaluator for one straight-line slice; `lets` collects (name, type, lean term) in source order."""
 
@@ -253,6 +282,11 @@ class PE:
             name = 'np.' + fn.attr
         if isinstance(fn, ast.Attribute) and fn.attr == 'astype' and not (isinstance(fn.value, ast.Name) and fn.value.id == 'np'):
             return self.ev(fn.value)            # elementwise: a cast does not change an integer that fits (the carrier is NumPy's business)
+        src_name = _elementwise_int_identity(e)
+        if src_name is not None:
+            # np.array([int(v) [if <test> else v] for v in X.flatten()], dtype=object).reshape(X.shape): every element of X turned into
+            # a python integer, or kept; on the integers the generated definitions are about, that is X itself
+            return self.ev(ast.Name(id=src_name, ctx=ast.Load()))
         if name is None and isinstance(fn, ast.Attribute) and isinstance(fn.value, ast.Name) and fn.value.id == 'utils' \
                 and fn.attr in self.consts.get('__utils__', {}) and not e.keywords:
             # a helper of fxpmath/utils.py: inlined elementwise (decorators such as np.vectorize lift it over arrays)
@@ -274,6 +308,8 @@ class PE:
         if name is None and isinstance(fn, ast.Attribute) and isinstance(fn.value, ast.Name) and fn.value.id == 'self' \
                 and fn.attr in self.consts.get('__methods__', {}):
             name = 'self.' + fn.attr
+        if name in ('np.array', 'np.asarray') and len(e.args) == 1 and e.keywords and all(k.arg == 'dtype' for k in e.keywords):
+            return self.ev(e.args[0])           # a choice of carrier: the integers are the same
         if name is None or e.keywords and name not in ('np.diagonal',):
             raise Untranslatable('call')
         if name == 'np.diagonal':
@@ -800,7 +836,9 @@ def generate(repo=None):
             c2 = dict(consts); c2['self.config.shifting'] = 'expand'
             c2['__patterns__'] = {'int(np.max(np.ceil(np.log2(np.abs(self.val) + 0.5))))': ('I', 'mb')}
             pe = PE({'self': ('O', 'x'), node.args.args[1].arg: ('I', 'n')}, c2, funcs)
-            r = pe.run(names_after(node.body[:1], ['n_word']), lenient=True)
+            # the statement that chooses the word by the shifting mode (a normalisation of the type of the count may stand before it)
+            sel = [st for st in node.body if isinstance(st, ast.If) and 'shifting' in ast.unparse(st.test)][:1]
+            r = pe.run(names_after(sel, ['n_word']), lenient=True)
             if r is None or r[0] != 'T':
                 raise Untranslatable('n_word not found')
             return emit('lshiftWord', '(xs : Bool) (xw xi xf : Int) (mb n : Int)', pe, r[1][0],
